@@ -17,6 +17,31 @@ fn main() {
         ("front_tests.rs", "tests/integration_tests.rs"),
         ("front_golang.rs", "etc/correctness/test-parse-golang/main.rs"),
     ];
+    // The remaining copies live in files that also need crates which are not cached (rand, toml, ...):
+    // only the front-end itself is extracted, textually, from `fn parse_sign` to the end of `parse_float`.
+    let sliced = [
+        ("front_rng_tests.rs", "etc/correctness/rng-tests/_common.rs"),
+        ("front_parse_random.rs", "etc/correctness/test-parse-random/_common.rs"),
+        ("front_unittests.rs", "etc/correctness/test-parse-unittests/main.rs"),
+    ];
+    for (name, rel) in sliced {
+        let path = repo.join(rel);
+        println!("cargo:rerun-if-changed={}", path.display());
+        let text = std::fs::read_to_string(&path).unwrap_or_else(|e| panic!("cannot read {}: {e}", path.display()));
+        let lines: Vec<&str> = text.lines().collect();
+        let start = lines.iter().position(|l| l.contains("fn parse_sign")).unwrap_or_else(|| panic!("{rel}: no parse_sign"));
+        let pf = lines.iter().position(|l| l.contains("fn parse_float")).unwrap_or_else(|| panic!("{rel}: no parse_float"));
+        let end = pf + lines[pf..].iter().position(|l| *l == "}").unwrap_or_else(|| panic!("{rel}: unterminated parse_float"));
+        let mut o = String::new();
+        for l in &lines[start..=end] {
+            o.push_str(l);
+            o.push('\n');
+        }
+        o.push_str(
+            "\npub fn verif_entry_f32(b: &[u8]) -> (f32, &[u8]) {\n    parse_float::<f32>(b)\n}\n\npub fn verif_entry_f64(b: &[u8]) -> (f64, &[u8]) {\n    parse_float::<f64>(b)\n}\n",
+        );
+        std::fs::write(out.join(name), o).unwrap();
+    }
     for (name, rel) in files {
         let path = repo.join(rel);
         println!("cargo:rerun-if-changed={}", path.display());
